@@ -2,7 +2,7 @@
    option, unit, list, prod, sumbool map to OCaml's; N / positive / nat / string
    stay the Coq inductives (no Extract Constant, no native integers). *)
 From Coq Require Import Extraction ExtrOcamlBasic.
-From Mtbl Require Import gen.Consts gen.CrcTables model.Bytes model.Codec model.Order model.Crc model.Block model.Writer model.WriteLoop model.Reader model.Verify model.OpenModel model.Tools model.ToolsMerge model.Compress model.Heap model.Merger model.Sorter model.Fileset model.FilesetPart model.Ledger model.Pool model.ResCore model.ResT1 model.ResSorter model.ResFileset model.Resources spec.Leb128 spec.Parse spec.TableCheck spec.Encode proofs.PoolLife proofs.PoolFairEx.
+From Mtbl Require Import gen.Consts gen.CrcTables model.Bytes model.Codec model.Order model.Crc model.Block model.Writer model.WriteLoop model.Reader model.IterMem model.Verify model.OpenModel model.Tools model.ToolsMerge model.Compress model.Heap model.Merger model.Sorter model.Fileset model.FilesetPart model.Ledger model.Pool model.ResCore model.ResT1 model.ResSorter model.ResFileset model.Resources spec.Leb128 spec.Parse spec.TableCheck spec.Encode proofs.PoolLife proofs.PoolFairEx.
 Extraction Language OCaml.
 Set Extraction KeepSingleton.
 Extraction "mtbl_model.ml"
@@ -17,7 +17,7 @@ Extraction "mtbl_model.ml"
   merger_iter_make merger_next merger_seek first_ge_from
   verify_file compression_type_to_str compression_type_from_str zlib_level lz4hc_level zstd_level
   lz4_bound zstd_bound snappy_bound zstd_capacity inflate_cap0 plan_compress default_level wrapper_compress_level wrapper_compress wrapper_decompress
-  reader_open reader_iter reader_get reader_get_prefix reader_get_range reader_iter_seek reader_iter_next
+  mrun ms_init reader_open reader_iter reader_get reader_get_prefix reader_get_range reader_iter_seek reader_iter_next
   dump_line_hex dump_line_text dump_keep info_model merge_tool_model merge_tool_run writer_init_path reader_init_path fs_get
   parse_table wf_validate table_entries table_check encode_table layout_ok
   DEFAULT_COMPRESSION_TYPE DEFAULT_COMPRESSION_LEVEL DEFAULT_BLOCK_SIZE DEFAULT_BLOCK_RESTART_INTERVAL
